@@ -124,6 +124,7 @@ impl C17 {
                     } else if to == REWARD && cn.denom == KUSD {
                         let r = reward.get_or_insert((0, e.seq));
                         r.0 += cn.amount.u128();
+                        r.1 = e.seq;
                     } else {
                         out.violation(P, "right_recipients", format!("DispatchRewards sent {} to {}", cn, to));
                     }
@@ -133,18 +134,27 @@ impl C17 {
         let rebond: Vec<&crate::chain::ExecRec> = tr.execs.iter().filter(|x| x.caller == DISPATCHER && x.callee == HUB).collect();
         let mut rebond_amount = 0u128;
         for x in rebond.iter() {
+            // the stSei share has to be *re-bonded*: coins travel to the hub with BondRewards only (a plain bond would
+            // mint tokens to the dispatcher); other calls that carry no coins are not the property's subject
             if !x.msg.starts_with("{\"bond_rewards\"") {
-                out.violation(P, "rebond_via_bond_rewards", format!("dispatcher called the hub with {}", x.msg));
+                if x.funds.iter().any(|f| !f.amount.is_zero()) {
+                    out.violation(P, "rebond_via_bond_rewards", format!("dispatcher sent coins to the hub with {}", x.msg));
+                } else {
+                    out.count("c17.other_coinless_calls_to_the_hub");
+                }
             }
             rebond_amount += x.funds.iter().filter(|f| f.denom == USEI).map(|f| f.amount.u128()).sum::<u128>();
         }
         let idx_update: Vec<&crate::chain::ExecRec> = tr.execs.iter().filter(|x| x.caller == DISPATCHER && x.callee == REWARD).collect();
-        if idx_update.len() != 1 || !idx_update[0].msg.starts_with("{\"update_global_index\"") {
-            out.violation(P, "index_update_follows", format!("expected exactly one UpdateGlobalIndex to the reward contract, saw {:?}", idx_update.iter().map(|x| x.msg.clone()).collect::<Vec<_>>()));
-        } else if let Some((_, seq)) = reward {
-            if idx_update[0].seq < seq {
-                out.violation(P, "index_update_follows", "the index update ran before the bSei share was transferred".into());
+        // "bSei share to the reward contract followed by an index update": when a share was sent, an UpdateGlobalIndex
+        // must run after the (last) transfer; without a share none is needed, and extra updates are harmless
+        let updates: Vec<&&crate::chain::ExecRec> = idx_update.iter().filter(|x| x.msg.starts_with("{\"update_global_index\"")).collect();
+        if let Some((amount, seq)) = reward {
+            if amount > 0 && !updates.iter().any(|u| u.seq > seq) {
+                out.violation(P, "index_update_follows", format!("{} sent to the reward contract but no UpdateGlobalIndex follows (dispatcher -> reward calls: {:?})", amount, idx_update.iter().map(|x| x.msg.clone()).collect::<Vec<_>>()));
             }
+        } else if updates.is_empty() {
+            out.count("c17.dispatches_without_share_and_without_update");
         }
         let ku = keeper.get(USEI).map(|x| x.0).unwrap_or(0);
         let kk = keeper.get(KUSD).map(|x| x.0).unwrap_or(0);
